@@ -23,7 +23,8 @@ EXPLANATION = (
     "quaternion conventions, deltaphi in [-pi,pi), deltaR, rapidity, Et/Mt, beta/gamma, unit, linear transforms) for all real operands where "
     "the definition is finite (timelike operands; spacelike tau-stored operands for the accessors defined there); IEEE guard lane: the dispatch entries of "
     "66 compute modules are executed on an order abstraction of IEEE-754 arithmetic (a fresh z3 variable per operation, constrained only by facts valid for "
-    "every correctly rounded result) and z3 decides that every argument reaching sqrt/arccos/arcsin is in the domain under every rounding"
+    "every correctly rounded result) and z3 decides that every argument reaching sqrt/arccos/arcsin is in the domain under every rounding; zero-operand "
+    "mode: the first operand is the zero vector as the library writes it, 0/0 is NaN in the abstraction, and z3 decides that no NaN reaches the result"
 )
 BOUNDS = {"semantics": "exact reals; the float64 'small multiple of rounding error' clause is outside the claim; ieee-guards: every float64 rounding up to overflow, underflow of squares, zero denominators and arithmetic on infinities (Mt, boost_beta3, boost_p4, gamma, isclose not covered)", "second_operands": "cartesian, same system, one rotating mixed system (all mixes: C01)"}
 
@@ -402,6 +403,51 @@ GUARDED_OK = {
 }
 
 
+# modules whose result for a zero first operand (every stored coordinate 0, as the library writes the zero vector) is NaN-free in every variant
+ZERO_OK = {
+    ('lorentz', 'Mt'),
+    ('lorentz', 'Mt2'),
+    ('lorentz', 'scale'),
+    ('planar', 'add'),
+    ('planar', 'deltaphi'),
+    ('planar', 'dot'),
+    ('planar', 'equal'),
+    ('planar', 'is_antiparallel'),
+    ('planar', 'is_parallel'),
+    ('planar', 'is_perpendicular'),
+    ('planar', 'not_equal'),
+    ('planar', 'phi'),
+    ('planar', 'rho'),
+    ('planar', 'rho2'),
+    ('planar', 'rotateZ'),
+    ('planar', 'scale'),
+    ('planar', 'subtract'),
+    ('planar', 'transform2D'),
+    ('planar', 'unit'),
+    ('planar', 'x'),
+    ('planar', 'y'),
+    ('spatial', 'add'),
+    ('spatial', 'costheta'),
+    ('spatial', 'cross'),
+    ('spatial', 'deltaR'),
+    ('spatial', 'deltaR2'),
+    ('spatial', 'deltaeta'),
+    ('spatial', 'equal'),
+    ('spatial', 'eta'),
+    ('spatial', 'not_equal'),
+    ('spatial', 'rotateX'),
+    ('spatial', 'rotateY'),
+    ('spatial', 'rotate_euler'),
+    ('spatial', 'rotate_quaternion'),
+    ('spatial', 'scale'),
+    ('spatial', 'subtract'),
+    ('spatial', 'theta'),
+    ('spatial', 'transform3D'),
+    ('spatial', 'unit'),
+    ('spatial', 'z'),
+}
+
+
 def families(tier="quick"):
     fams = []
     from . import guards
@@ -411,6 +457,15 @@ def families(tier="quick"):
         mods.setdefault(pkg, {})[key.split("@")[0]] = (pkg, want)
     for pkg, m in mods.items():
         gf, _sk = guards.families(PID, m, tier)
+        fams += gf
+    import os
+
+    zmods = {}
+    for pkg, name, module in common.compute_modules():
+        if os.environ.get("VERIF_GUARD_ALL") or (pkg, name) in ZERO_OK:
+            zmods.setdefault(pkg, {})[name] = (pkg, None)
+    for pkg, m in zmods.items():
+        gf, _sk = guards.families(PID, m, tier, zero=True)
         fams += gf
 
     def add(key, fn, functions, defd=True):
